@@ -260,13 +260,16 @@ class _no_spin:
     """A raw stream that accepts nothing makes io.BufferedWriter spin in its flush loop (also the one of close());
     the alarm is re-armed so that the flush on leaving the with-block is interrupted as well."""
 
+    def __init__(self, n=0):
+        self.patience = 10.0 + n / 500.0       # generous: a long transfer on a loaded machine is not a spin
+
     def __enter__(self):
         import signal
 
         def stuck(*a):
             raise AssertionError("buffered write makes no progress")
         self.old = signal.signal(signal.SIGALRM, stuck)
-        signal.setitimer(signal.ITIMER_REAL, 5.0, 0.5)
+        signal.setitimer(signal.ITIMER_REAL, self.patience, 0.5)
 
     def __exit__(self, *exc):
         import signal
@@ -297,7 +300,7 @@ def do_download(node, case, payload, split):
             kw["size"] = n
         if api == "open_size_force":
             kw["force_segment"] = True
-        with _no_spin(), node.sdo.open(idx, sub, "wb", buffering=buffering, **kw) as fp:
+        with _no_spin(n), node.sdo.open(idx, sub, "wb", buffering=buffering, **kw) as fp:
             if buffering == 0:
                 chunks = []
                 off = 0
@@ -354,6 +357,8 @@ def run_download(case, st):
         if err is not None:
             st.violation(f"C01:download:{case['api']}:raises:{type(err).__name__}", rc, "returns normally",
                          repr(err)[:200] + " frames=" + ",".join(srv.frames[-4:]))
+            if "makes no progress" in repr(err):
+                return          # each further split of this case would cost the spin detector's patience again
             continue
         for code, fr, txt in srv.violations[:1]:
             st.violation(f"C01:download:frame:{code}:{case['api']}", rc, "legal CiA 301 request", f"{fr}: {txt}")
